@@ -434,7 +434,17 @@ def _replay(rec):
     return 0
 
 
+def deductive(ctx):
+    """engine D: in Job.inputs every file-typed field is staged by one copy_nested_files call that gets that field's own
+    copy mode / collation and the job directory, and nothing else"""
+    from contracts import job_inputs as JI
+    from pyvc.verify import verify, summarize
+
+    summarize(ctx, verify(ctx, JI.contract()))
+
+
 def run(ctx):
+    deductive(ctx)
     with T.private_hash_cache():
         _run(ctx)
 
